@@ -12,6 +12,7 @@ PROFILES = {
     # weights / parameter pools; every profile is "mostly valid" traffic focused on one property's mechanisms
     "core": dict(),
     "count": dict(counts=[0, 0, 1, 1, 2, 3, 5, 65534, 65535], nkeys=2, p_unlock=0.3),
+    "keys": dict(nkeys=3, nids=3, counts=[0, 0, 1], p_unlock=0.4, p_time=0.2, expr=[0, 1, 2, 3, 10], timeouts=[0, 0, 2, 9]),
     "reentrant": dict(rcounts=[0, 1, 2, 3, 254, 255], nids=3, nkeys=1, p_unlock=0.4, counts=[0, 0, 2, 5]),
     "waiters": dict(timeouts=[3, 5, 8, 12, 20, 30], counts=[0, 0, 0, 1, 2], nkeys=1, nids=10, p_prio=0.25, p_unlock=0.35, expr=[1, 2, 3, 5, 30]),
     "timeouts": dict(timeouts=[0, 1, 2, 3, 7, 8, 9, 10, 12, 15, 16, 17, 25], nkeys=2, nids=12, p_unlock=0.15, p_time=0.45, expr=[30, 60, 100], counts=[0, 0, 1]),
@@ -19,6 +20,8 @@ PROFILES = {
     "ack": dict(p_ack=0.5, nkeys=2, nids=6, timeouts=[0, 2, 5, 10], p_ackact=0.25),
     "role": dict(p_role=0.08, nkeys=2, p_time=0.3, expr=[1, 2, 3, 5, 10, 20], eflags=[0, 0, 0x100, 0x100]),
     "aof": dict(aoftimes=[0, 1, 2, 5], p_time=0.35, eflags=[0, 0, 0x100, 0x200, 0x1000, 0x40], nkeys=2),
+    "sched": dict(sched=True, nkeys=1, nids=5, p_unlock=0.3, p_time=0.12, timeouts=[0, 0, 2, 5, 9], counts=[0, 0, 0, 1, 2], expr=[0, 2, 5, 10, 20], length=(8, 50)),
+    "sched2": dict(sched=True, nkeys=2, nids=4, p_unlock=0.3, p_time=0.15, timeouts=[0, 3, 8], counts=[0, 1, 65535], expr=[1, 3, 10], length=(10, 60)),
     "many": dict(nkeys=1, nids=400, counts=[65535, 300, 200], timeouts=[30, 60], expr=[50, 100], p_unlock=0.2, length=(300, 700), p_time=0.03),
 }
 
@@ -39,7 +42,7 @@ class Gen:
     def lock_cmd(self, keys, ids, conns):
         r = self.rng
         self.req += 1
-        flag = r.choices([0, 1, 2, 3, 8], [70, 6, 8 + 100 * self.p.get("p_update", 0), 3, 6])[0]
+        flag = r.choices([0, 1, 2, 3, 8], [70, 6, 8 + 100 * self.p.get("p_update", 0), 3, 0 if self.p.get("sched") else 6])[0]
         count = self.pick("counts", [0, 0, 0, 0, 1, 2, 3, 65535, 65534])
         rcount = self.pick("rcounts", [0, 0, 0, 1, 2, 255])
         timeout = self.pick("timeouts", [0, 0, 1, 2, 3, 5, 9, 12])
@@ -99,7 +102,14 @@ class Gen:
         follower = False
         nkeys = self.p.get("nkeys", r.choice([1, 1, 2, 3]))
         nids = self.p.get("nids", r.choice([2, 3, 4, 6]))
-        keys = [r.choice([3, 7, 11, 19, 258, 70000]) + i for i in range(nkeys)]
+        if nkeys > 1 and r.random() < 0.4:
+            # keys that collide in the key table's fast slot (DBFastKeyCount = 64 in the harness): exercises the
+            # overflow map, downgrade and the fast-entry hand-over of GetOrNewLockManager / RemoveLockManager
+            b = r.choice([3, 7, 19])
+            keys = [b + 64 * i for i in range(nkeys)]
+            self.stats["colliding_keys"] += 1
+        else:
+            keys = [r.choice([3, 7, 11, 19, 258, 70000]) + i for i in range(nkeys)]
         ids = list(range(101, 101 + nids))
         conns = list(range(1, r.choice([2, 3, 5])))
         lo, hi = self.p.get("length", (5, 60))
@@ -115,7 +125,12 @@ class Gen:
         p_unlock = self.p.get("p_unlock", 0.25)
         p_time = self.p.get("p_time", 0.25)
         nacks = 0
+        sched = self.p.get("sched", False)
         for _ in range(n):
+            if sched and r.random() < 0.45:
+                lines.append("resume %d" % r.randint(0, 5))
+                self.stats["resume"] += 1
+                continue
             x = r.random()
             if x < p_time:
                 k = r.choices([1, 1, 1, 2, 3, 9, 20], [50, 20, 10, 8, 5, 4, 3])[0]
@@ -150,6 +165,9 @@ class Gen:
                 if follower and r.random() < 0.5:
                     ln = self.from_aof(ln); self.stats["from_aof"] += 1
                 lines.append(ln)
+        if sched:
+            lines = [("start" + l[3:]) if l.startswith("req ") and r.random() < 0.85 else l for l in lines]
+            lines.append("drain")
         if drain:
             lines.append("adv 0")     # marker: the drain phase starts here (kept intact by the shrinker)
             lines.append("role 1")
@@ -229,7 +247,7 @@ def snapshot_corrupt(snap_lines):
     """a freed lock record reachable from a key's queues, or a wrapped reference count: the engine state is
     corrupted (use-after-free follows); comparison stops there, the monitors report it"""
     for ln in snap_lines:
-        if ln.startswith("snap ") and "uafw=" in ln and not ln.rstrip().endswith("uafw=0"):
+        if ln.startswith("snap ") and "uafw=" in ln and " uafw=0" not in ln:
             return "freed-record-in-timer-wheel"
         if not ln.startswith("key "):
             continue
@@ -295,7 +313,7 @@ class Runner:
                 ctx.notes.append("derive_fixes unavailable: %s" % e)
         self.impl = ctx.go_build("engine_implrun", os.path.join(vlib.VERIF, "harness", "engine"),
                                  overlay={"server/zz_verif_engine.go": "harness/engine/inj/zz_verif_engine.go"}, pkg="./cmd/implrun")
-        self.model = ctx.ocaml_model("engine", deps=["Engine/Ack.vo"])
+        self.model = ctx.ocaml_model("engine", deps=["Engine/Ack.vo", "Engine/Sched.vo"])
         self.tmp = tempfile.mkdtemp(prefix="verif-eng-")
 
     def run_cases(self, cases):
